@@ -131,7 +131,9 @@ Adv(stk) ==
 Goto(stk) == /\ stack' = stk
              /\ ctl' = IF stk = <<>> THEN "final" ELSE "walk"
 
-Running == phase = "run" /\ (Planned => (nint >= Len(plan) \/ steps # plan[nint + 1]))
+\* (IF-THEN-ELSE, not a disjunction: TLC would split a disjunction inside an action into separate branches)
+PlanHere == IF nint < Len(plan) THEN steps = plan[nint + 1] ELSE FALSE
+Running == phase = "run" /\ (IF Planned THEN ~PlanHere ELSE TRUE)
 Tick == steps' = IF Planned THEN steps + 1 ELSE steps
 
 SaveChoices == IF LastRunSaves = "yes" /\ nint >= MaxInterrupts THEN {TRUE} ELSE BOOLEAN
@@ -239,7 +241,7 @@ FinalReport(save) ==
 \* over so far survive
 Interrupt ==
   /\ phase = "run" /\ nint < MaxInterrupts
-  /\ Planned => (nint < Len(plan) /\ steps = plan[nint + 1])
+  /\ IF Planned THEN PlanHere ELSE TRUE
   /\ phase' = "crashed" /\ ctl' = "start" /\ stack' = <<>>
   /\ lp' = NoneP /\ lpl' = 0 /\ old' = NoneP
   /\ before' = before \cup Range(handed) /\ handed' = <<>>
@@ -304,7 +306,7 @@ MissReport == (phase = "done" /\ nint = 0 /\ ~(Must \subseteq HandedNow))
 \* interrupted (any number of times, anywhere, with any saved progress) and continued: nothing is lost
 ResumeCovers == (phase = "done" /\ nint > 0) => FullSet \subseteq HandedAll
 \* a run never hands over something an uninterrupted run would not
-ResumeNoExtra == HandedAll \subseteq FullSet
+ResumeNoExtra == (phase \in {"done", "crashed"}) => HandedAll \subseteq FullSet
 
 \* identifiers are saved only as exact entry paths
 ReportedPathExact == (ctl = "walk" /\ Top.pc = "report") => (lp = NoneP \/ Len(lp) = lpl)
